@@ -327,7 +327,10 @@ func mountPathCleaned(c *core.Ctx) {
 			switch x := in.(type) {
 			case *ssa.Call:
 				if cal := x.Call.StaticCallee(); cal != nil && cal.Pkg != nil && cal.Pkg.Pkg != nil && cal.Pkg.Pkg.Path() == "strings" && (cal.Name() == "HasPrefix" || cal.Name() == "TrimPrefix") {
-					operand = x.Call.Args[0]
+					// a comparison with a mount point, not with a literal (a test for a leading slash)
+					if _, isLit := x.Call.Args[1].(*ssa.Const); !isLit {
+						operand = x.Call.Args[0]
+					}
 				}
 			case *ssa.BinOp:
 				if x.Op == token.EQL && core.IsStringType(x.X.Type()) {
